@@ -481,6 +481,8 @@ Proof.
     destruct (r_mu (getr s r)); [discriminate|].
     destruct (r_stop (getr s r)); injection H as E1 E2 E3; subst s1 st sp; simpl; closed_leaf Inv.
   - (* FCleanStart: cache.mu taken *)
+    destruct (Nat.eqb arg 1).
+    { destruct (r_cancel (getr s r)); [|discriminate]. injection H as E1 E2 E3. subst s1 st sp. simpl. closed_leaf Inv. }
     destruct (r_clock (getr s r)) eqn:Ck; [discriminate|]. injection H as E1 E2 E3. subst s1 st sp. simpl.
     eapply closed_transfer; [ | | | | | | | | | exact Inv];
       [ apply same_cl_refl | intros n' x' Hx'; left; exact Hx' | reflexivity | intros sl' _; left; reflexivity
